@@ -30,6 +30,7 @@ RULE = ("the real LinearConstraints / NonlinearConstraints / "
 RULE += ("  Also: families mixmag (a narrow two-sided component next to siblings with limits 1e3..1e305) and near_eq (relative gaps 1e-15..1e-4): 'lb = ub to rounding' is judged per component with a three-decade zone in which both readings are accepted; NaN limits / coefficients at problem level with res.maxcv and Problem.maxcv (called after the run) compared with the interval violation.")
 RULE += (" Equalities whose level lies in the last binade; consecutive points agreeing to 8-11 digits at problem level.")
 RULE += (' The same constraint objects reused with other limits before the call (translation follows the current limits).')
+RULE += (" Repeated coefficient rows with other limits, within one object and across objects.")
 ASSUMPTIONS = [
     "wrong-direction infinite limits (lb=+inf / ub=-inf) are ambiguous in "
     "the statement (interval reading vs documented dropping): both readings "
@@ -125,10 +126,21 @@ def check_linear(rng, lbs, ubs, viols, counts, coeff_nan=False):
     n = m_tot
     objs = []
     off = 0
+    # column read by each row: the identity, or (repeated rows) some rows
+    # read the column of an EARLIER row - the same coefficients stated twice
+    # with other limits, in one object or across objects; every stated limit
+    # counts
+    col = np.arange(m_tot)
+    if m_tot > 1 and not coeff_nan and rng.random() < 0.25:
+        for i in range(1, m_tot):
+            if rng.random() < 0.5:
+                col[i] = col[int(rng.integers(0, i))]
+        counts["repeated_rows"] = counts.get("repeated_rows", 0) + int(
+            np.sum(col != np.arange(m_tot)))
     for lo, hi in zip(lbs, ubs):
         m = len(lo)
         a = np.zeros((m, n))
-        a[np.arange(m), off + np.arange(m)] = 1.0
+        a[np.arange(m), col[off + np.arange(m)]] = 1.0
         if coeff_nan and m_tot > 1:
             a[0, (off + 1) % n] = math.nan    # counts as 0
         off += m
@@ -184,9 +196,10 @@ def check_linear(rng, lbs, ubs, viols, counts, coeff_nan=False):
                        f"limits lb={lbs} ub={ubs}: internal rows "
                        f"(ub={lc.a_ub.shape[0]}, eq={lc.a_eq.shape[0]}), "
                        f"expected ({n_ub}, {n_eq})", lb=lbs, ub=ubs))
-    for v in values_for(rng, lb_all, ub_all):
+    for x in values_for(rng, lb_all, ub_all):
         counts["value_vectors"] = counts.get("value_vectors", 0) + 1
-        got = internal_linear(lc, v)
+        got = internal_linear(lc, x)
+        v = x[col]
         want = 0.0
         alt = 0.0
         half = 0.0
